@@ -896,11 +896,12 @@ impl Header {«
                 lemma_hdr_inv_step(hp, headers, val0, n, d);
                 lemma_labels_step(ms, n, label);
                 assert forall |x: Label| seen@.contains(x) <==> has_label(ms, n + 1, x) by {}
+                // (kept outside the `if` below so that the hint survives edits of that block)
+                if headers.iv@.len() > 0 && headers.partial_iv@.len() > 0 { lemma_iv_both(headers, val0, n + 1, d); lemma_iv_both_witness(headers, val0, n + 1, d); lemma_iv_both_no_dup(val0, n + 1, d); }
             }»
             // RFC 8152 section 3.1: "The 'Initialization Vector' and 'Partial Initialization
             // Vector' parameters MUST NOT both be present in the same security layer."
-            if !headers.iv.is_empty() && !headers.partial_iv.is_empty() {«
-                proof { lemma_iv_both(headers, val0, n + 1, d); lemma_iv_both_witness(headers, val0, n + 1, d); lemma_iv_both_no_dup(val0, n + 1, d); }»
+            if !headers.iv.is_empty() && !headers.partial_iv.is_empty() {
                 return Err(CoseError::UnexpectedItem(
                     "IV and partial-IV specified",
                     "only one of IV and partial IV",
